@@ -416,7 +416,8 @@ theorem C07_handler_error (cfg : Cfg) (n : Name) (as : List Attr) (rs1 : RS) (pr
     (h : prog.ret ≠ .ok ∧ prog.ret ≠ .readErr) :
     ∃ inv e, handleElem cfg n as rs1 prog = .stop (some inv) (writesOf prog.ops) (.error e) ∧
       ((prog.ret = .streamErr ∨ prog.ret = .wrapStream) → e = .streamError "policy-violation") ∧
-      ((prog.ret ≠ .streamErr ∧ prog.ret ≠ .wrapStream) → e = .handler) := by
+      (prog.ret = .addrErr → e = .badJid) ∧
+      ((prog.ret ≠ .streamErr ∧ prog.ret ≠ .wrapStream ∧ prog.ret ≠ .addrErr) → e = .handler) := by
   unfold handleElem
   simp only [runOps_ws]
   cases hr : prog.ret <;> simp_all [encAll_out, WS.init]
@@ -542,7 +543,114 @@ theorem C07_mux_fallback_once (cfg : Cfg) (n : Name) (as : List Attr) (body : Li
       | cons a l => rfl
     simp [autoReply, hdet, this]
 
+/-! ### attribute order, attribute values: what the peer chose is what counts -/
+
+theorem writesOf_replicate_read : ∀ k : Nat, writesOf (List.replicate k Op.read) = []
+  | 0 => rfl
+  | k + 1 => by simp [List.replicate, writesOf, writesOf_replicate_read k]
+
+/-- **a stanza whose to or from address does not parse**, behind the multiplexer: whatever its
+type — get, set, result, error, none, anything — wherever the bad attribute stands among the
+others (the statement is for every attribute list), whatever is registered: the router writes
+nothing and returns the parse error; the session adds nothing and ends with that error.  In
+particular a result or error IQ with a malformed address is **never answered** -/
+theorem C07_mux_bad_address (reg : Bool) (cfg : Cfg) (n : Name) (as : List Attr) (body : List Tok) (p : Prog)
+    (rs1 : RS) (hst : isStanza n cfg.ns = true)
+    (hbad : addrOf cfg as "from" = none ∨ addrOf cfg as "to" = none) :
+    muxEffective reg cfg n as body p = { ops := [], ret := .addrErr } ∧
+    muxAnswering cfg n as body = { ops := [], ret := .addrErr } ∧
+    ∃ inv, handleElem cfg n as rs1 (muxEffective reg cfg n as body p) = .stop (some inv) [] (.error .badJid) := by
+  have h1 : muxEffective reg cfg n as body p = { ops := [], ret := .addrErr } := by
+    unfold muxEffective
+    simp only [hst, Bool.not_true, Bool.false_eq_true, if_false]
+    rcases hbad with h | h
+    · simp [h]
+    · rw [h]; cases addrOf cfg as "from" <;> rfl
+  have h2 : muxAnswering cfg n as body = { ops := [], ret := .addrErr } := by
+    unfold muxAnswering
+    simp only [hst, Bool.not_true, Bool.false_eq_true, if_false]
+    rcases hbad with h | h
+    · simp [h]
+    · rw [h]; cases addrOf cfg as "from" <;> rfl
+  refine ⟨h1, h2, ?_⟩
+  obtain ⟨inv, e, he, _, hb, _⟩ := C07_handler_error cfg n as rs1 { ops := [], ret := .addrErr } (by simp)
+  rw [h1]
+  exact ⟨inv, by rw [he, hb rfl]; rfl⟩
+
+/-- **replies are never answered by the multiplexer**: for an IQ of type result or error the
+effective handler (nothing registered, or a handler for get / set that answers from the parsed
+IQ) writes nothing — for every attribute list (any order, any values), every outcome of parsing
+the addresses, every payload -/
+theorem C07_mux_reply_never_answered (cfg : Cfg) (n : Name) (as : List Attr) (body : List Tok) (p : Prog)
+    (hty : isReplyTyp (getTyp as) = true) :
+    writesOf (muxEffective false cfg n as body p).ops = [] ∧
+    writesOf (muxAnswering cfg n as body).ops = [] := by
+  have hnr : isRequestTyp (getTyp as) = false := by
+    simp only [isReplyTyp, Bool.or_eq_true, beq_iff_eq] at hty
+    rcases hty with h | h <;> simp [isRequestTyp, h]
+  constructor
+  · unfold muxEffective
+    simp only [Bool.false_and, Bool.false_eq_true, if_false, hty, if_true]
+    repeat' split
+    all_goals simp [Prog.nop, writesOf, writesOf_replicate_read]
+  · unfold muxAnswering
+    simp only [hnr, Bool.false_eq_true, if_false, hty, if_true]
+    repeat' split
+    all_goals simp [Prog.nop, writesOf, writesOf_replicate_read]
+
+theorem resultReply_detected (rid id' : String) (n : Name) (frm to : Option String)
+    (hsp : n.space = nsClient ∨ n.space = nsServer) :
+    (WS.init.encAll rid (resultReply n id' frm to)).wrote = decide (id' = rid) := by
+  rcases hsp with h | h <;> cases frm <;> cases to <;> by_cases hid : id' = "" <;>
+    simp [WS.encAll, WS.enc, WS.init, resultReply, isReplyStart, isIqEmptySpace, getId, getTyp,
+      getIdTypAux, attr, isReplyTyp, h, hid, nsClient, nsServer] <;>
+    first
+      | (by_cases hh : id' = rid <;> simp [hh]; done)
+      | (by_cases hh : rid = "" <;> simp [hh] <;> exact fun h2 => hh h2.symm)
+
+/-- **ids are opaque**: the reply a handler builds from the parsed IQ is recognised as the reply
+exactly when it carries the id of the request unchanged.  With the id as it was sent the
+detector's flag is set and the session adds nothing; with any other id (trimmed, padded,
+normalised in any way) the flag stays clear and the session adds its own error — the requester
+would get two elements, one of them under an id it never used -/
+theorem C07_reply_id_opaque (cfg : Cfg) (n : Name) (as : List Attr) (frm to : Option String)
+    (hiq : isIq n = true) (hty : isRequestTyp (getTyp as) = true) :
+    (WS.init.encAll (getId as) (resultReply n (getId as) frm to)).wrote = true ∧
+    autoReply cfg n as (WS.init.encAll (getId as) (resultReply n (getId as) frm to)).wrote = some [] ∧
+    ∀ id' : String, id' ≠ getId as →
+      (WS.init.encAll (getId as) (resultReply n id' frm to)).wrote = false ∧
+      autoReply cfg n as (WS.init.encAll (getId as) (resultReply n id' frm to)).wrote
+        = (replyTo cfg as).map (defaultReply (getId as)) := by
+  have hsp : n.space = nsClient ∨ n.space = nsServer := by
+    simp only [isIq, Bool.and_eq_true, Bool.or_eq_true, beq_iff_eq] at hiq; exact hiq.2
+  have key : ∀ id' : String, (WS.init.encAll (getId as) (resultReply n id' frm to)).wrote
+      = decide (id' = getId as) := fun id' => resultReply_detected (getId as) id' n frm to hsp
+  refine ⟨by rw [key]; simp, by rw [key]; simp [autoReply], ?_⟩
+  intro id' hne
+  refine ⟨by rw [key]; simp [hne], ?_⟩
+  rw [key]; simp [autoReply, hne, hiq, hty]
+
+set_option maxRecDepth 16000 in
+/-- **the two readers of a start element agree**: on every probed start element — every order
+of the unqualified type / id / from / to attributes, ids and types that are padded with white
+space, contain it or are empty, with same-named attributes of another namespace in between —
+the id and the type the real `stanza.NewIQ` hands to the multiplexer and to handlers
+(regenerated on every run) are exactly what the session's own `getIDTyp` reads: nothing is
+trimmed or normalised, so a reply built from the parsed IQ carries the id the detector looks
+for (`C07_reply_id_opaque`) -/
+theorem C07_gen_newiq_reads :
+    ∃ t, Generated.C07.newIQReads = some t ∧ 300 ≤ t.length ∧
+      ∀ e ∈ t, getId (e.1.map fun a => ⟨⟨a.1.1, a.1.2⟩, a.2⟩) = e.2.1 ∧
+               getTyp (e.1.map fun a => ⟨⟨a.1.1, a.1.2⟩, a.2⟩) = e.2.2 := by
+  refine ⟨_, rfl, by decide, by decide⟩
+
 /-! ### non-vacuity: concrete instances of the hypotheses -/
+
+example : isReplyTyp (getTyp [attr "to" "@example.net", attr "id" "r1", attr "type" "result"]) = true ∧
+    addrOf { ns := nsClient, localBare := "me@example.com", jidCanon := fun _ => none }
+      [attr "to" "@example.net", attr "id" "r1", attr "type" "result"] "to" = none ∧
+    getId [attr "type" "get", attr "id" " 42 "] = " 42 " := by decide
+
 
 /-- a get request, a handler that writes a message, then a result with another id nested in a
 wrapper: nothing counts, the automatic error is added and is the only reply -/
